@@ -17,6 +17,7 @@ RULE = ("A target node (bool / int / float of any width / str; scalar, or float 
         "units = value * F(their unit)); exactly one entry per path, in first-appearance order. Failing programs "
         "(another data type, a literal the type cannot hold, a unit of another dimension, !constant then modify, a "
         "declaration never assigned) must raise. Non-trivial: >=2 modifications with a unit change, or a falsy final "
+        "Round 4: values assigned by reference to a helper node (also 0 / false), integers beyond 2**53, an earlier parse that defined the custom unit differently. "
         "value (0, false, none). Distinct = distinct rendered text.")
 ASSUMPTIONS = [
     "integer nodes only receive values whose conversion into the definition unit is an exact integer",
